@@ -78,6 +78,18 @@ def gen(rp, rw, tier):
             if rp.random() < 0.3:
                 i = rp.randrange(len(pool))
                 A, ma = {"$": "p", "i": i}, meta[i]
+            if rp.random() < 0.08:
+                # naive pairs ("x naive pairs"; a naive native operand must give the native length)
+                ia = rp.randrange(tzdb.year_start_us(2), tzdb.year_start_us(9998))
+                ib = ia + rp.choice([0, 1, -1, 999999, rp.randrange(-10**12, 10**12), rp.randrange(-3 * 10**15, 3 * 10**15)])
+                ib = max(tzdb.year_start_us(2), min(ib, tzdb.year_start_us(9998)))
+                fa, fb = tzdb.us_to_fields(ia), tzdb.us_to_fields(ib)
+                pair = {"_pair": {"a": ia, "b": ib, "kind": "ba", "abs": False, "zone_a": None}}
+                An = {"$": "naive", "f": fa}
+                Bn = {"$": "naive", "f": fb}
+                ops.append(rp.choice([["bin", "sub", Bn, An, pair], ["bin", "sub", Bn, {"$": "native", "f": fa, "tz": None}, pair],
+                                      ["bin", "sub", {"$": "native", "f": fb, "tz": None}, An, pair]]))
+                continue
             x = rp.random()
             if x < 0.3:
                 op = ["bin", "sub", B, A]
